@@ -222,6 +222,63 @@ def render_chain(chain, res, rc, note=None):
         res.sample = {"templates": texts, "expected": exp}
 
 
+def render_two_bases(r, res):
+    """the SAME derived templates (one lookup, the same Template objects) rendered alternately over two different
+    base-most templates chosen by a dynamic <%inherit>: each render dispatches as the static chain would; nothing learnt
+    about one ancestor chain may carry over to the next render"""
+    import copy
+
+    L = _st["TemplateLookup"]
+    for _ in range(50):
+        chain = rand_chain(r)
+        if len(chain) >= 2 and not any(sp.get("target_none") for sp in chain):
+            break
+    else:
+        return
+    n = len(chain) - 1
+    chain[n - 1]["dynamic"] = True
+    tgt = chain[n - 1]
+    baseB = {"defs": {d: [("t", "%s@TB[]" % d)] for d in DEFS if r.random() < 0.5},
+             "blocks": {b: {"items": [("t", "%s@TB{}" % b)]} for b in BLOCKS if r.random() < 0.5},
+             "attrs": [a for a in ATTRS if r.random() < 0.5], "page": [], "dynamic": False}
+    body = [("t", "BODYB(")]
+    for b in baseB["blocks"]:
+        body.append(("block", b))
+    body.append(("nextbody", {a: "%s-from-TB" % a for a in tgt["page"]}))
+    body.append(("t", ")"))
+    baseB["body"] = body
+    chains = {"t%d.html" % n: chain, "tB.html": chain[:-1] + [baseB]}
+    lk = L()
+    texts = {}
+    for i, spec in enumerate(chain):
+        texts["t%d.html" % i] = emit(spec, i, n)
+    texts["tB.html"] = emit(baseB, n, n)
+    shown = "\n".join("  %s: %s" % kv for kv in sorted(texts.items()))
+    try:
+        for name, text in texts.items():
+            lk.put_string(name, text)
+    except Exception as e:
+        res.violate("two-bases-compile", "templates\n%s\nraised %s: %s" % (shown, type(e).__name__, e))
+        return
+    for step, base in enumerate(r.choice([["tB.html", "t%d.html" % n, "tB.html"], ["t%d.html" % n, "tB.html", "t%d.html" % n, "tB.html"]])):
+        res.evaluations += 1
+        res.count("alternating_base_renders")
+        exp = Model(copy.deepcopy(chains[base])).render()
+        ctx = {"target%d" % i: "t%d.html" % (i + 1) for i in range(n)}
+        ctx["target%d" % (n - 1)] = base
+        try:
+            got = ("out", lk.get_template("t0.html").render_unicode(**ctx))
+        except (AttributeError, TypeError, NameError) as e:
+            got = ("exc", "AttributeError" if isinstance(e, (AttributeError, NameError)) else "TypeError", str(e))
+        except Exception as e:
+            got = ("exc", type(e).__name__, str(e))
+        if got[:2] != exp[:2]:
+            res.violate("dispatch-after-base-change", "one lookup, render %d over base %s (bases alternate through a dynamic <%%inherit>):\n%s\nrendered %r\nexpected %r" % (
+                step + 1, base, shown, got, exp), witness="alternating bases")
+            return
+    res.nontrivial("c06-two-bases", sorted(texts.items()))
+
+
 # ------------------------------------------------------------------ (a) exhaustive probing chains
 def probe_chain(n, dmask, bmask, amask):
     chain = []
@@ -444,6 +501,8 @@ def run_case(case):
         for _ in range(case["n"]):
             chain = rand_chain(r)
             render_chain(chain, res, {"kind": "chain", "chain": chain})
+        for _ in range(max(1, case["n"] // 10)):
+            render_two_bases(r, res)
     elif k == "chain":
         render_chain(case["chain"], res, case)
     return res
